@@ -404,12 +404,21 @@ func (e *Engine) havocLoopWrites(st *State, fr *Frame, li *loopInfo) {
 		e.havocMaps(st)
 	}
 	// call logs may have grown by an unknown amount
+	hv := map[string]bool{}
 	for name := range st.logs {
 		if w.calls[name] || w.anyCall {
-			e.havocLog(st, name)
+			hv[name] = true
 		}
 	}
 	for _, name := range w.syms {
+		hv[name] = true
+	}
+	var hvs []string
+	for name := range hv {
+		hvs = append(hvs, name)
+	}
+	sort.Strings(hvs)
+	for _, name := range hvs {
 		e.havocLog(st, name)
 	}
 	// iterators
@@ -682,9 +691,41 @@ func (e *Engine) havocAllHeaps(st *State) {
 }
 
 func (e *Engine) havocLog(st *State, name string) {
-	st.logs[name] = nil
-	st.logLen[name] = e.ctx.Fresh("loglen_"+name, SInt)
-	st.Assume(Le(IntLit(0), st.logLen[name]))
+	l, ok := st.logs[name]
+	if !ok {
+		// create it from the callback's signature so that invariants can talk about it
+		l = e.logFromSig(st, name)
+		if l == nil {
+			return
+		}
+	}
+	nl := &CallLog{Len: e.ctx.Fresh("loglen_"+name, SInt), ArgT: l.ArgT}
+	st.Assume(Le(IntLit(0), nl.Len))
+	for _, arrs := range l.Args {
+		var na []Term
+		for _, a := range arrs {
+			na = append(na, e.ctx.Fresh("log_"+name+"_lp", a.Sort))
+		}
+		nl.Args = append(nl.Args, na)
+	}
+	st.logs[name] = nl
+}
+
+// logFromSig creates the empty log of a callback parameter of the root function.
+func (e *Engine) logFromSig(st *State, name string) *CallLog {
+	pv, ok := e.params[name]
+	if !ok {
+		return nil
+	}
+	sig, ok := pv.T.Underlying().(*types.Signature)
+	if !ok {
+		return nil
+	}
+	var args []Val
+	for i := 0; i < sig.Params().Len(); i++ {
+		args = append(args, e.zeroVal(resolve(sig.Params().At(i).Type(), e.rootEnv)))
+	}
+	return e.getLog(st, name, args)
 }
 
 // ---------------------------------------------------------------------------
